@@ -32,7 +32,7 @@ func zzIncludeAndIndex(sm *StateMachine, st *zzStore, txs ...[]byte) (*lib.Apply
 func ZZ_C06_O1_identical_bytes() {
 	w := zzWorldValues()
 	sm, st := zzBuildWorld(w)
-	t := zzSendTxBytes(zzSendSpec("t"))
+	t := zzSendTxBytes(zzValidEnvelopeSpec("t"))
 	r1, e1 := zzIncludeAndIndex(sm, st, t)
 	if e1 != nil || len(r1.Results) != 1 {
 		return
@@ -58,7 +58,9 @@ func ZZ_C06_O2_O3_domain_and_window() {
 	h := zzU64("height")
 	zzAssume(h >= 2)
 	sm.height = h
-	spec := zzSendSpec("t")
+	// sender, recipient and signer fixed (C05 quantifies over signers); the envelope is symbolic
+	spec := zzTxSpec{from: 0, to: 1, signer: 0, amount: zzN64("t.amount"), fee: zzN64("t.fee"),
+		created: zzU64("t.created"), time: zzU64("t.time"), net: zzU64("t.net"), chain: zzU64("t.chain")}
 	r, e := zzIncludeAndIndex(sm, st, zzSendTxBytes(spec))
 	if e != nil || len(r.Results) != 1 {
 		return
@@ -75,7 +77,7 @@ func ZZ_C06_O2_O3_domain_and_window() {
 func ZZ_C06_O4_reencoded_bytes() {
 	w := zzWorldValues()
 	sm, st := zzBuildWorld(w)
-	t := zzSendTxBytes(zzSendSpec("t"))
+	t := zzSendTxBytes(zzValidEnvelopeSpec("t"))
 	r1, e1 := zzIncludeAndIndex(sm, st, t)
 	if e1 != nil || len(r1.Results) != 1 {
 		return
